@@ -539,3 +539,45 @@ def nameregex(repo):
             res.samples.append(f"{sym}: `{pats[0]}` == `{doc_rx}` on all strings up to length 6")
     res.analysed = [TOK, LANGREF]
     return res
+
+
+def numexamples(repo):
+    """R-NUMEXAMPLES (C10): the language reference's section "Numeric Constant Formats" lists literals that are numbers and
+    literals that are "Not allowed".  Each listed literal is tokenized with the checker's tokenizer over the pattern
+    tables extracted from tokenizer.py: the allowed ones must come out as exactly one `Number` token, the others must
+    not.  (doc/grammar.md is generated from the tokenizer and cannot serve as the oracle.)"""
+    from .. import toksim
+    res = RuleResult("R-NUMEXAMPLES")
+    text = repo.read(LANGREF)
+    m = re.search(r"^### Numeric Constant Formats\s*$(.*?)(?=^##|\Z)", text, re.S | re.M)
+    if not m:
+        raise AnalysisError("language-reference.md: section `### Numeric Constant Formats` not found")
+    lits, regs = G.tokenizer_tables(repo)
+    examples = []
+    for block in re.findall(r"```\n(.*?)```", m.group(1), re.S):
+        for line in block.splitlines():
+            tok = line.split("#", 1)[0].strip()
+            if not tok or " " in tok:
+                continue
+            comment = line.split("#", 1)[1] if "#" in line else ""
+            examples.append((tok, "not allowed" in comment.lower()))
+    extra = re.findall(r"`?(0X[0-9A-Fa-f]+)`? is not allowed", m.group(1))
+    examples += [(e, True) for e in extra]
+    if len(examples) < 10 or sum(1 for _, bad in examples if bad) < 3:
+        raise AnalysisError(f"language-reference.md: only {len(examples)} numeric examples found")
+    for tok, forbidden in examples:
+        res.instances += 1
+        try:
+            toks = [t for t in toksim.tokenize(tok, lits, regs) if t[0] != '"\\n"']
+        except toksim.TokErr:
+            toks = None
+        is_number = toks is not None and len(toks) == 1 and toks[0][0] == "Number" and toks[0][1] == tok
+        if is_number and forbidden:
+            res.add(f"{TOK}|number|{tok}", f"`{tok}` is documented as not allowed (misplaced `_` separators or `0X`) but tokenizes as a "
+                    "Number: a malformed literal is silently accepted with some value", TOK)
+        elif not is_number and not forbidden:
+            res.add(f"{TOK}|number|{tok}", f"`{tok}` is documented as a valid numeric constant but tokenizes as "
+                    f"{[t[0] for t in toks] if toks else 'an error'}", TOK)
+    res.samples = [f"{len(examples)} documented literals ({sum(1 for _, b in examples if b)} forbidden)"]
+    res.analysed = [TOK, LANGREF]
+    return res
